@@ -7,7 +7,7 @@ import re
 import types
 
 from vf import refsem
-from vf.envobj import EXC, V, mkCM, mkE, same, E1, E2, E3
+from vf.envobj import EXC, V, mkCM, mkE, same, E1, E2, E3, pick_exc
 
 # ------------------------------------------------------------------ rendering
 
@@ -143,6 +143,7 @@ def fill_env(g, E, CMf, vals):
     g["E1"] = E1
     g["E2"] = E2
     g["E3"] = E3
+    g["F"] = _F
     for name, spec in vals:
         if spec[0] == "V":
             g[name] = V(spec[1], spec[2])
@@ -150,6 +151,10 @@ def fill_env(g, E, CMf, vals):
             g[name] = list(spec[1])
         else:
             g[name] = spec[1]
+
+
+def _F(*a, **kw):
+    return (a, tuple(sorted(kw.items())))
 
 
 HIDDEN = ("hy", "__builtins__")
@@ -165,16 +170,16 @@ def visible(g):
 
 
 class Outcome:
-    __slots__ = ("kind", "val", "log", "vars")
+    __slots__ = ("kind", "val", "log", "vars", "relaxed")
 
     def __init__(self, kind, val, log, vars_):
         self.kind, self.val, self.log, self.vars = kind, val, log, vars_
 
 
-def run_compiled(prog, vals, k=-1, exc=0, sup=False):
+def run_compiled(prog, vals, k=-1, exc=0, sup=False, k2=-1, exc2=0):
     log = []
     g = {}
-    E = mkE(log, k, exc)
+    E = mkE(log, k, exc, k2, exc2)
     fill_env(g, E, mkCM(E, sup), vals)
     try:
         v = run_code(prog, g)
@@ -182,20 +187,24 @@ def run_compiled(prog, vals, k=-1, exc=0, sup=False):
     except Exception as e:
         v = e
         kind = "raise"
-    return Outcome(kind, v, log, visible(g))
+    return Outcome(kind, v, log, g)
 
 
-def run_oracle(sk, vals, k=-1, exc=0, sup=False):
+def run_oracle(sk, vals, k=-1, exc=0, sup=False, k2=-1, exc2=0, gfor_lazy_first=False):
     w = refsem.World()
     g = {}
+
     def E(site, v=None):
         w.event(site)
         if site == k:
-            raise EXC[exc]("fault@%d" % site)
+            raise pick_exc(exc)("fault@%d" % site)
+        if site == k2:
+            raise pick_exc(exc2)("fault2@%d" % site)
         return v
 
     fill_env(g, E, mkCM(E, sup), vals)
     it = refsem.Interp(w, g)
+    it.gfor_lazy_first = gfor_lazy_first
     try:
         v = it.run(sk)
         kind = "value"
@@ -206,30 +215,55 @@ def run_oracle(sk, vals, k=-1, exc=0, sup=False):
     except Exception as e:
         v = e
         kind = "raise"
-    return Outcome(kind, v, w.log, visible(g))
+    o = Outcome(kind, v, w.log, g)
+    o.relaxed = kind == "raise" and w.relaxed
+    return o
 
 
-def drain(a, b):
-    """Generators (gfor): compare laziness (no events yet) then contents."""
-    return list(a), list(b)
+def _has_head(sk, h):
+    if isinstance(sk, tuple):
+        if sk and sk[0] == h:
+            return True
+        for a in sk:
+            if _has_head(a, h):
+                return True
+    return False
 
 
-def agree(prog, sk, vals, k=-1, exc=0, sup=False, why=None):
+EXPLAIN = [False]  # set by the native replay: collect a diagnosis in LAST_WHY
+LAST_WHY = []
+
+
+def agree(prog, sk, vals, k=-1, exc=0, sup=False, why=None, k2=-1, exc2=0):
     """The Engine-B postcondition."""
+    if why is None and EXPLAIN[0]:
+        del LAST_WHY[:]
+        why = LAST_WHY
     if prog[0] != "ok":
         if why is not None:
             why.append("compiler rejected: %s %s" % (prog[1], prog[2]))
         return False
-    a = run_compiled(prog, vals, k, exc, sup)
-    b = run_oracle(sk, vals, k, exc, sup)
+    if _agree_once(prog, sk, vals, k, exc, sup, why, k2, exc2, False):
+        return True
+    if _has_head(sk, "gfor"):
+        # see refsem.Interp.gfor_lazy_first
+        return _agree_once(prog, sk, vals, k, exc, sup, why, k2, exc2, True)
+    return False
+
+
+def _agree_once(prog, sk, vals, k, exc, sup, why, k2, exc2, lazy):
+    a = run_compiled(prog, vals, k, exc, sup, k2, exc2)
+    b = run_oracle(sk, vals, k, exc, sup, k2, exc2, lazy)
     if a.kind != b.kind:
         if why is not None:
             why.append("kind %s(%r) vs oracle %s(%r)" % (a.kind, a.val, b.kind, b.val))
         return False
     av, bv = a.val, b.val
     if hasattr(av, "__next__") and hasattr(bv, "__next__"):
-        # lazy: nothing may have run yet beyond what the oracle allows
-        if not refsem.log_matches(list(a.log), b.log):
+        # lazy: before the first next() nothing may have run except (optionally)
+        # the leftmost iterable, which a native generator expression evaluates at
+        # creation and Hy's generator-function strategy at the first next()
+        if not refsem.log_matches_relaxed(list(a.log), b.log):
             if why is not None:
                 why.append("laziness: log %r vs %r" % (a.log, b.log))
             return False
@@ -245,10 +279,20 @@ def agree(prog, sk, vals, k=-1, exc=0, sup=False, why=None):
         if why is not None:
             why.append("value %r vs oracle %r" % (av, bv))
         return False
+    if b.relaxed:
+        # order-dependent outcome: an exception cut an unordered sibling group short;
+        # which siblings ran (and which bindings exist) is unspecified
+        if not refsem.log_matches_relaxed(list(a.log), b.log):
+            if why is not None:
+                why.append("relaxed log %r vs oracle %r" % (a.log, b.log))
+            return False
+        return True
     if not refsem.log_matches(list(a.log), b.log):
         if why is not None:
             why.append("log %r vs oracle %r" % (a.log, b.log))
         return False
+    a.vars = visible(a.vars)  # after draining generators
+    b.vars = visible(b.vars)
     if len(a.vars) != len(b.vars):
         if why is not None:
             why.append("visible names %r vs oracle %r" % (sorted(a.vars), sorted(b.vars)))
@@ -258,7 +302,7 @@ def agree(prog, sk, vals, k=-1, exc=0, sup=False, why=None):
             if why is not None:
                 why.append("name %s leaked" % name)
             return False
-        if name in ("E", "CM"):
+        if name in ("E", "CM", "F"):
             continue
         if not same(a.vars[name], b.vars[name]):
             if why is not None:
@@ -277,7 +321,7 @@ from vf import skel as _sk
 
 
 def harness_src(name, sk, fault=False, exc=False, sup=False, xs_len=2, twin=False, text=None,
-                int_box=None, agree_fn="_sk.agree", extra_pre=()):
+                int_box=None, agree_fn="_sk.agree", extra_pre=(), fault2=False):
     """Source for one Engine-B harness function + its module-level compile."""
     info = scan(sk)
     text = text if text is not None else render(sk)
@@ -306,6 +350,14 @@ def harness_src(name, sk, fault=False, exc=False, sup=False, xs_len=2, twin=Fals
         params.append("exc: int")
         pre.append("0 <= exc <= 2")
         kw.append("exc=exc")
+    if fault2 and nsites:
+        params.append("k2: int")
+        pre.append("-1 <= k2 < %d" % nsites)
+        kw.append("k2=k2")
+        if exc:
+            params.append("exc2: int")
+            pre.append("0 <= exc2 <= 2")
+            kw.append("exc2=exc2")
     if sup or info["cm"] and sup is not False:
         params.append("sup: bool")
         kw.append("sup=sup")
